@@ -36,8 +36,8 @@ CHECKS = [
     chk("C01", ENGINE + "Proved in full on the model: the chip identity and non-negativity in every reachable state, published pots add up, and the closing clauses (zero-sum result, final = bankroll + change >= 0, nobody loses more than he put in) for every reachable state that carries a result." + PART,
         BASE_NOTE + "Amounts in Z (int64 = Z while the sum of bankrolls stays below 2^61).",
         "Coq proof over a Gallina model + differential correspondence with the Go code", "DESIGN.md §4 C01, §9"),
-    chk("C02", PURE + "Settlement and pot models; the engine's showdowns are compared as well. Proved: the level-by-level rule, zero-sum, bounds, folded players win nothing, uncalled excess returns, tied winners of a pot differ by at most one chip; the engine records exactly this settlement." + PART,
-        BASE_NOTE + "Scores are positive exactly for the non-folded players.",
+    chk("C02", PURE + "Settlement and pot models; the engine's showdowns are compared as well. Proved: the level-by-level rule, zero-sum, bounds, folded players win nothing, uncalled excess returns, tied winners of a pot differ by at most one chip; the engine records exactly this settlement, in which a folded player loses exactly what he put in (the players still in carry positive strengths: proved for the shipped tables, variants and decks)." + PART,
+        BASE_NOTE + "For other variants or decks with repeated / unknown cards the positivity of live strengths is a hypothesis.",
         "Coq proof over a Gallina model + differential correspondence with the Go code", "DESIGN.md §4 C02, §9"),
     chk("C03", PURE + "The evaluator model runs over constant tables regenerated from the Go source on every run." + PART,
         BASE_NOTE + "Hands are five distinct cards of the 52-card deck.",
